@@ -496,6 +496,57 @@ def _fields(repo, rep):
               "simple_value"):
         rep.check(g in anames, "R03.3", PARSER + ".match_single_attribute",
                   "attribute regex captures '%s'" % g, construct="agroup:" + g)
+    _eq_grammar(repo, rep)
+
+
+def _eq_grammar(repo, rep):
+    """Eq ::= S? '=' S?  -- any amount of white space on either side of '='
+    belongs to the captured 'eq' field (the tokenizer accepts it; a bounded
+    repeat would make finditer resume in the middle of the attribute)."""
+    from .. import rx
+    import re as _re
+    C = rx.C
+    rc = repo.const("chameleon.parser", "match_single_attribute")
+    pat = rc.pattern if isinstance(rc.pattern, str) else \
+        rc.pattern.decode("latin-1")
+    try:
+        gi = _re.compile(pat, rc.flags).groupindex
+    except _re.error as exc:
+        raise AnalysisError("attribute regex does not compile: %s" % exc)
+
+    def find(items, gid):
+        for op, av in items:
+            if op is C.SUBPATTERN:
+                if av[0] == gid:
+                    return list(av[3])
+                r = find(av[3], gid)
+                if r is not None:
+                    return r
+            elif op in (C.MAX_REPEAT, C.MIN_REPEAT):
+                r = find(av[2], gid)
+                if r is not None:
+                    return r
+            elif op is C.BRANCH:
+                for alt in av[1]:
+                    r = find(alt, gid)
+                    if r is not None:
+                        return r
+        return None
+    body = find(list(rx.parse(pat, rc.flags)), gi.get("eq"))
+
+    def spaces(it):
+        if it[0] not in (C.MAX_REPEAT,):
+            return False
+        lo, hi, b = it[1]
+        b = list(b)
+        return lo == 0 and hi >= 65535 and len(b) == 1 and \
+            b[0][0] is C.IN and any(o is C.CATEGORY and "SPACE" in str(a)
+                                    for o, a in b[0][1])
+    ok = body is not None and len(body) == 3 and spaces(body[0]) and \
+        body[1] == (C.LITERAL, ord("=")) and spaces(body[2])
+    rep.check(ok, "R03.3", PARSER + ".match_single_attribute",
+              "the 'eq' field is white space (any amount), '=', white space "
+              "(any amount)", construct="eq-grammar", detail=str(body)[:160])
 
 
 def _no_overlap(rep, f, groups, nest, what):
@@ -589,15 +640,11 @@ def _newlines(repo, rep):
         rep.check(ok, "R03.5", site, "the rewrite is CRLF/CR -> LF",
                   construct="newline-rewrite", where=L.where(f, r.lineno),
                   detail=src(r.value))
-        guard = None
-        p = getattr(r, "_parent", None)
-        while p is not None and not isinstance(p, ast.FunctionDef):
-            if isinstance(p, ast.If):
-                guard = p
-            p = getattr(p, "_parent", None)
-        rep.check(guard is not None and
-                  src(guard.test) == "self.content_type != 'text/xml'" and
-                  r in list(ast.walk(ast.Module(body=guard.body,
-                                                type_ignores=[]))),
-                  "R03.5", site, "newlines are normalised only outside XML "
-                  "mode", construct="newline-guard", where=L.where(f, r.lineno))
+        gs = [(src(t), v) for t, v in L.guards_of(r, f.node)
+              if not isinstance(t, ast.ExceptHandler)]
+        rep.check(len(gs) == 1 and L.cond_holds(
+            gs, "self.content_type != 'text/xml'", True), "R03.5", site,
+            "newlines are normalised outside XML mode, always and only "
+            "there (the mode is the one condition on the rewrite)",
+            construct="newline-guard", where=L.where(f, r.lineno),
+            detail=str(gs))
